@@ -20,6 +20,14 @@ theorem allMethods_complete : ∀ m : Method, m ∈ allMethods := by
 /-- THE TIE: the lock discipline extracted from the current Go source passes the check. -/
 theorem lockTable_ok : LockDiscipline table allMethods = true := by decide +kernel
 
+/-- every exported operation of the property's quantifier — the queries (roots, verifier snapshot,
+prove, verify, look-ups, missing positions, leaf count, serialization) and the writers — is ONE
+critical section: the only exported methods that take no lock themselves and still reach
+lock-taking methods are the two debug printers, which string several locked getters together and
+are not queries in the sense of the property -/
+theorem queries_single_section :
+    SingleSection table allMethods [.«String», .«AllSubTreesToString»] = true := by decide +kernel
+
 /-- `Full` is written by no method: immutable after construction (extracted, not assumed);
 this is what makes the unlocked `if m.Full` at the top of `Prune` race-free. -/
 theorem full_immutable : mutF table allMethods .Full = false := by decide +kernel
